@@ -457,7 +457,7 @@ fn c15_case(seed: u64, index: u64, rep: &mut Report) {
 
 pub fn run(prop: &str, tier: &str, seed: u64, workers: usize) -> Report {
     let thorough = tier == "thorough";
-    let n: u64 = match (prop, thorough) { ("C06", false) => 1500, ("C06", true) => 20000, ("C08", false) => 1200, ("C08", true) => 12000, ("C13", false) => 1500, ("C13", true) => 20000, (_, false) => 1500, (_, true) => 20000 };
+    let n: u64 = match (prop, thorough) { ("C06", false) => 4000, ("C06", true) => 20000, ("C08", false) => 3000, ("C08", true) => 12000, ("C13", false) => 4000, ("C13", true) => 20000, (_, false) => 6000, (_, true) => 20000 };
     let mut total = parallel(workers, |w, nw| {
         let mut rep = Report::default();
         for ci in 0..n {
